@@ -86,7 +86,8 @@ def theorem_names_file(path):
                 ns.pop()
             m = re.match(r"^(?:protected\s+)?theorem\s+([^\s:({\[]+)", line)
             if m:
-                out.append(".".join(ns + [m.group(1)]))
+                nm = m.group(1)
+                out.append(nm[len("_root_."):] if nm.startswith("_root_.") else ".".join(ns + [nm]))
     return out
 
 
@@ -122,10 +123,10 @@ def audit(pid):
     res = {}
     text = p.stdout
     norm = {n.replace("«", "").replace("»", ""): n for n in names}
-    for m in re.finditer(r"'([^']+)' depends on axioms: \[([^\]]*)\]", text, flags=re.S):
+    for m in re.finditer(r"'(\S+)' depends on axioms: \[([^\]]*)\]", text, flags=re.S):
         key = m.group(1).replace("«", "").replace("»", "")
         res[norm.get(key, m.group(1))] = [a.strip() for a in m.group(2).replace("\n", " ").split(",") if a.strip()]
-    for m in re.finditer(r"'([^']+)' does not depend on any axioms", text):
+    for m in re.finditer(r"'(\S+)' does not depend on any axioms", text):
         key = m.group(1).replace("«", "").replace("»", "")
         res[norm.get(key, m.group(1))] = []
     if p.returncode != 0 or len(res) != len(names):
